@@ -258,6 +258,9 @@ type Clause struct {
 	Text  string
 	Expr  *SExpr
 	Where string // file:line
+	// loop clauses: `loop N overall` - a statement over all iterations so far (ghost state read
+	// as it is); `loop N invariant` reads ghost state that iterations change per iteration
+	Overall bool
 }
 
 type ModClause struct {
@@ -289,6 +292,9 @@ type Contract struct {
 	LoopDec   map[int]*Clause
 	LoopMod   map[int][]*ModClause
 	LoopAfter map[int][]*Clause
+	// `at call Callee [label] expr`: proved in the state just before every call of Callee made by
+	// the function itself (locals in scope)
+	AtCalls map[string][]*Clause
 	Asserts   []*Clause
 	Assumes   []*Clause // ensures-clauses taken on trust at call sites, never proved (listed as assumptions)
 	Observes  []*Observe
@@ -396,7 +402,7 @@ func NewSpecDB() *SpecDB {
 	return &SpecDB{Contracts: map[string]*Contract{}, Funcs: map[string]*SpecFunc{}, Records: map[string]*Record{}, Models: map[string]*ModelField{}, Preds: map[string]*Pred{}}
 }
 
-var clauseKW = map[string]bool{"fresh": true, "requires": true, "ensures": true, "modifies": true, "crash_inv": true, "loop": true, "observe": true, "param": true, "trusted": true, "nopanic": true, "pure": true, "noinline": true, "inline": true, "property": true, "assert": true, "assumes": true}
+var clauseKW = map[string]bool{"fresh": true, "requires": true, "ensures": true, "modifies": true, "crash_inv": true, "loop": true, "observe": true, "param": true, "trusted": true, "nopanic": true, "pure": true, "noinline": true, "inline": true, "property": true, "assert": true, "assumes": true, "at": true}
 var topKW = map[string]bool{"distinct": true, "recvonly": true, "methodset": true, "flagmap": true, "noglobals": true, "func": true, "package": true, "record": true, "spec": true, "model": true, "pred": true, "axiom": true}
 
 // LoadFile parses one contract file. pkgPath is the import path the file's functions live in
@@ -838,6 +844,23 @@ func parseClauseInto(c *Contract, kw, rest, where string) error {
 			return err
 		}
 		c.Modifies = append(c.Modifies, ms...)
+	case "at":
+		fs := strings.Fields(rest)
+		if len(fs) < 3 || fs[0] != "call" {
+			return fmt.Errorf("at clause: want `at call Callee [label] expr`")
+		}
+		body := strings.TrimSpace(rest[strings.Index(rest, fs[1])+len(fs[1]):])
+		cl, err := parseClause(body, where)
+		if err != nil {
+			return err
+		}
+		if c.AtCalls == nil {
+			c.AtCalls = map[string][]*Clause{}
+		}
+		if cl.Label == "" {
+			cl.Label = fmt.Sprintf("at%d", len(c.AtCalls[fs[1]])+1)
+		}
+		c.AtCalls[fs[1]] = append(c.AtCalls[fs[1]], cl)
 	case "loop":
 		fs := strings.Fields(rest)
 		if len(fs) < 3 {
@@ -858,6 +881,16 @@ func parseClauseInto(c *Contract, kw, rest, where string) error {
 			if cl.Label == "" {
 				cl.Label = fmt.Sprintf("inv%d", len(c.LoopInv[n])+1)
 			}
+			c.LoopInv[n] = append(c.LoopInv[n], cl)
+		case "overall":
+			cl, err := parseClause(body, where)
+			if err != nil {
+				return err
+			}
+			if cl.Label == "" {
+				cl.Label = fmt.Sprintf("inv%d", len(c.LoopInv[n])+1)
+			}
+			cl.Overall = true
 			c.LoopInv[n] = append(c.LoopInv[n], cl)
 		case "after":
 			// loop N after [label] expr : checked, then assumed, on leaving the loop
